@@ -190,6 +190,15 @@ def integrand(xs, ops):
         acc = acc + chain(xs[i], ops) * xs[i - 1]
     return acc
 
+def integrand_prod3(xs):
+    """a product whose right-hand factor already carries a Hessian part and dense gradients: its
+    Hessian is symmetric only up to rounding, so a transposed result differs in the last bit"""
+    t = xs[1] * xs[2] + xs[0]
+    acc = (xs[0] * xs[1]) * (t * t)
+    for i in range(3, len(xs)):
+        acc = acc * xs[i] + xs[i - 1]
+    return acc
+
 def point(n, salt=0):
     return [0.5 + 0.125 * ((3 * i + salt) % 11) for i in range(n)]
 
@@ -243,6 +252,15 @@ def drivers(max_n):
                         res = nd.jacobian(g, x)
                         emit({"kind": "driver", "name": "jacobian", "n": n, "m": m, "chain": ops, "x": [bits(v) for v in x], "result": nested_bits(res)})
                     attempt("jacobian", run_jacobian)
+        if ops == CHAINS_Q[0]:
+            for n in (3, 4, 11):
+                for salt in range(8):
+                    # not dyadic: the products must round
+                    xp = [0.3 + 0.173 * ((3 * i + salt) % 11) + 0.0137 * i for i in range(n)]
+                    def run_h3():
+                        res = nd.hessian(integrand_prod3, xp)
+                        emit({"kind": "driver", "name": "hessian", "variant": "prod3", "n": n, "chain": ops, "x": [bits(v) for v in xp], "result": nested_bits(res)})
+                    attempt("hessian", run_h3)
         for m in range(1, 7):
             for n in range(1, 7):
                 x, y = point(m), point(n, 4)
